@@ -196,3 +196,50 @@ package lower
 //@   loop 2 invariant [idx] 0 <= i && i <= len(member)
 //@   loop 2 invariant [done] forall j int :: 0 <= j && j < i ==> uint8(pattern[j]) < uint8(vecSize)
 //@   loop 2 decreases len(member) - i
+
+// ---- float constant expressions (C06, C11) ---------------------------------------------------
+//
+// Module-scope float constant expressions: the value is the IEEE operator applied
+// to the operand values; division by zero is an error, never a value.
+//
+//@ func (*Lowerer).evalConstantFloatExpr
+//@   mode bv
+//@   tags C06 C11
+//@   at return assert [add] e.Op == parser.TokenPlus && result1 == nil ==> same(result0, left + right)
+//@   at return assert [sub] e.Op == parser.TokenMinus && result1 == nil ==> same(result0, left - right)
+//@   at return assert [mul] e.Op == parser.TokenStar && result1 == nil ==> same(result0, left * right)
+//@   at return assert [div] e.Op == parser.TokenSlash && result1 == nil ==> !fpeq(right, 0.0) && same(result0, left / right)
+//@   at return assert [div-by-zero] e.Op == parser.TokenSlash && fpeq(right, 0.0) ==> result1 != nil
+//@   at return assert [neg] result1 == nil ==> same(result0, -val)
+//
+// ---- abstract literals take the type of their destination (C09, C06) ----------------------------
+//
+// An abstract-int literal that is concretised for a destination of scalar type T
+// becomes a literal *of type T* holding the converted value.
+//
+//@ func (*Lowerer).concretizeAbstractInt
+//@   mode bv
+//@   tags C09 C06
+//@   requires [func] l != nil && l.currentFunc != nil && int(handle) < len(l.currentFunc.Expressions)
+//@   at return assert [u32] target.Kind == ir.ScalarUint && target.Width != 8 ==> is(concrete, ir.LiteralU32) && uint32(concrete.(ir.LiteralU32)) == uint32(value)
+//@   at return assert [u64] target.Kind == ir.ScalarUint && target.Width == 8 ==> is(concrete, ir.LiteralU64) && uint64(concrete.(ir.LiteralU64)) == uint64(value)
+//@   at return assert [i32] target.Kind == ir.ScalarSint && target.Width != 8 ==> is(concrete, ir.LiteralI32) && int32(concrete.(ir.LiteralI32)) == int32(value)
+//@   at return assert [i64] target.Kind == ir.ScalarSint && target.Width == 8 ==> is(concrete, ir.LiteralI64) && int64(concrete.(ir.LiteralI64)) == value
+//@   at return assert [f16] target.Kind == ir.ScalarFloat && target.Width == 2 ==> is(concrete, ir.LiteralF16)
+//@   at return assert [f32] target.Kind == ir.ScalarFloat && target.Width == 4 ==> is(concrete, ir.LiteralF32) && same(float32(concrete.(ir.LiteralF32)), float32(value))
+//@   at return assert [f64] target.Kind == ir.ScalarFloat && target.Width == 8 ==> is(concrete, ir.LiteralF64) && same(float64(concrete.(ir.LiteralF64)), float64(value))
+
+// ---- module-scope float constant expressions are stored in the declared type (C06) ------------
+//
+// `const c: f16 = a * b;` is evaluated on a float64 carrier; what is stored in the
+// module constant must be the value converted to the *declared* float type - half
+// bits for f16, single bits for f32, double bits for f64 - because the back ends
+// emit the stored bits as a constant of that type.
+//
+//@ pred cscalar(l, h) := l.module.Types[int(h)].Inner.(ir.ScalarType)
+//@ func (*Lowerer).lowerConstantBinaryExpr
+//@   mode bv
+//@   tags C06
+//@   at append assert [f16-bits] int(typeHandle) < len(l.module.Types) && is(l.module.Types[int(typeHandle)].Inner, ir.ScalarType) && cscalar(l, typeHandle).Kind == ir.ScalarFloat && cscalar(l, typeHandle).Width == 2 ==> is(arg1[0].Value, ir.ScalarValue) && arg1[0].Value.(ir.ScalarValue).Bits <= 0xffff && same(fromhalfbits(uint16(arg1[0].Value.(ir.ScalarValue).Bits)), tohalf(float32(floatVal)))
+//@   at append assert [f32-bits] int(typeHandle) < len(l.module.Types) && is(l.module.Types[int(typeHandle)].Inner, ir.ScalarType) && cscalar(l, typeHandle).Kind == ir.ScalarFloat && cscalar(l, typeHandle).Width == 4 ==> is(arg1[0].Value, ir.ScalarValue) && arg1[0].Value.(ir.ScalarValue).Bits <= 0xffffffff && same(f32frombits(uint32(arg1[0].Value.(ir.ScalarValue).Bits)), float32(floatVal))
+//@   at append assert [f64-bits] int(typeHandle) < len(l.module.Types) && is(l.module.Types[int(typeHandle)].Inner, ir.ScalarType) && cscalar(l, typeHandle).Kind == ir.ScalarFloat && cscalar(l, typeHandle).Width == 8 ==> is(arg1[0].Value, ir.ScalarValue) && same(f64frombits(arg1[0].Value.(ir.ScalarValue).Bits), floatVal)
